@@ -61,6 +61,16 @@ def byMode (j : Json) (exact : Except String Res) (flt : Except String Res) : Ex
   | "both" => do pure (showRes (← exact) ++ "\x1f" ++ showRes (← flt))
   | _ => .error "!bad-arg:mode"
 
+def getCell (v : Json) : Except String Cell := do
+  pure { mag := ← getRat v "mag", unit := ← optArg v "unit" asChars }
+
+def getContainer (j : Json) : Except String Container := do
+  match ← getStr j "kind" with
+  | "keyed" => do
+      pure (.keyed (← (← getArr j "entries").mapM fun e => do pure ((← getStr e "key").toList, ← getCell e)))
+  | "positional" => do pure (.positional (← (← getArr j "entries").mapM getCell))
+  | _ => .error "!bad-arg:kind"
+
 def h : Handler := fun op j =>
   match op with
   | "fmt_g" => do pure (str (fmtG (← getNat j "p") (← getRat j "x")))
@@ -79,6 +89,9 @@ def h : Handler := fun op j =>
   | "roman" => do
       if ChemModel.Gen.PrintingNumbers.romanValues.any (· == 0) then pure "ZeroDivisionError" else
       pure (str (roman (← getNat j "n")))
+  | "html_table" => do
+      let subs ← (← getArr j "substances").mapM fun e => do pure ((← getStr e "key").toList, (← getStr e "name").toList)
+      pure ((showRes (perSubstanceTable subs (← getContainer j) (← getStr j "header").toList)).replace "\n" "\\n")
   | "pow_ten" => do
       pure (showRes (powTen (← getFmt j) (← getStr j "significand").toList (← getStr j "mantissa").toList))
   | "param_str" => do
